@@ -129,7 +129,7 @@ def check(run: WorkerRun, model: Model, res: Result, label: str) -> None:
                 break
 
 
-async def run_on_enqueue(backlog: int, dur: int) -> dict:
+async def run_on_enqueue(backlog: int, dur: int, foreign: bool = False) -> dict:
     """testing plugin mode: Worker(messages_limit=1) runs inside enqueue()"""
     from repid import Connection, InMemoryMessageBroker, Job, Router, Worker
     from repid.testing.modifiers import RunWorkerOnEnqueueModifier
@@ -148,8 +148,18 @@ async def run_on_enqueue(backlog: int, dur: int) -> dict:
     for i in range(backlog):
         await Job("act", args={"x": 100 + i}, _connection=conn).enqueue()
     RunWorkerOnEnqueueModifier(broker, lambda: Worker(routers=[router], messages_limit=1, handle_signals=[], _connection=conn))
+    side_left = None
+    if foreign:
+        # a job for a declared queue that none of the routers serves: it just waits there, now and after later enqueues
+        await broker.queue_declare("side")
+        await asyncio.wait_for(Job("act", queue="side", args={"x": 500}, _connection=conn).enqueue(), timeout=30)
+        await asyncio.wait_for(Job("other", queue="side", args={"x": 501}, _connection=conn).enqueue(), timeout=30)
     await asyncio.wait_for(Job("act", args={"x": 1}, _connection=conn).enqueue(), timeout=30)
-    return {"ran": ran, "backlog": backlog, "dur": dur}
+    await asyncio.wait_for(Job("act", args={"x": 2}, _connection=conn).enqueue(), timeout=30)
+    if foreign:
+        q = broker.queues["side"]
+        side_left = {"waiting": len(q.simple._queue), "processing": len(q.processing), "dead": len(q.dead)}
+    return {"ran": ran, "backlog": backlog, "dur": dur, "side_left": side_left}
 
 
 def run(ctx) -> Result:
@@ -182,13 +192,22 @@ def run(ctx) -> Result:
             o = vtime.run(lambda loop, b=backlog, d=dur: run_on_enqueue(b, d), budget=20_000_000)
             res.dist["run-on-enqueue"] += 1
             res.note(("roe", backlog, dur))
-            if backlog == 0 and o["ran"] != [1]:
+            if backlog == 0 and o["ran"] != [1, 2]:
                 res.bad("impl", "run-on-enqueue: enqueue() did not return after exactly that job was processed once",
-                        case={"label": "run-on-enqueue", "backlog": backlog, "dur": dur}, observed=o["ran"], expected=[1])
-            if backlog > 0 and len(o["ran"]) != 1:
+                        case={"label": "run-on-enqueue", "backlog": backlog, "dur": dur}, observed=o["ran"], expected=[1, 2])
+            if backlog > 0 and len(o["ran"]) != 2:
                 res.bad("impl", "run-on-enqueue with a backlog: more than one job processed inside enqueue()",
                         case={"label": "run-on-enqueue", "backlog": backlog, "dur": dur}, observed=o["ran"],
-                        expected="exactly one execution", finding=F4)
+                        expected="exactly one execution per enqueue (two enqueues)", finding=F4)
+    for dur in (0, 200_000):
+        o = vtime.run(lambda loop, d=dur: run_on_enqueue(0, d, foreign=True), budget=20_000_000)
+        res.dist["run-on-enqueue:unserved-queue"] += 1
+        res.note(("roe-foreign", dur))
+        if o["ran"] != [1, 2] or o["side_left"] != {"waiting": 2, "processing": 0, "dead": 0}:
+            res.bad("impl", "run-on-enqueue with jobs waiting in a declared queue that no router serves: an enqueue did not process "
+                            "exactly its own job once, or the unserved messages did not stay in their queue untouched",
+                    case={"label": "run-on-enqueue/unserved-queue", "dur": dur}, observed=o,
+                    expected={"ran": [1, 2], "side_left": {"waiting": 2, "processing": 0, "dead": 0}})
     return res
 
 
